@@ -124,3 +124,39 @@ Proof.
          [[x4 y4] z4] [[x5 y5] z5] [[x6 y6] z6] [[x7 y7] z7].
   unfold hex_linear6, planarity. unfold_geom12. ring.
 Qed.
+
+(* ---------------------------------------------------------------- *)
+(* uniform scaling x |-> k x: area vectors scale by k^2, the outward test by
+   k^3, element volumes by k^3 — for k > 0 facets, signs and unit normals are
+   those of the unscaled mesh (used by the length-scale stream of the
+   correspondence check, whose model runs on the unscaled integer mesh) *)
+Lemma vsum_scale : forall k (l : list RV3),
+  vsum ROps (map (vscale ROps k) l) = vscale ROps k (vsum ROps l).
+Proof.
+  intros k l. induction l as [| [[x y] z] r IH].
+  - cbv. apply triple_eq; ring.
+  - cbn [map vsum fold_right]. fold (vsum ROps (map (vscale ROps k) r)). rewrite IH.
+    fold (vsum ROps r). destruct (vsum ROps r) as [[a b] c]. cbv. apply triple_eq; ring.
+Qed.
+
+Lemma varea2_scale : forall k (pts : list RV3),
+  varea2 ROps (map (vscale ROps k) pts) = vscale ROps (k * k) (varea2 ROps pts).
+Proof.
+  intros k pts.
+  destruct pts as [| [[? ?] ?] [| [[? ?] ?] [| [[? ?] ?] [| [[? ?] ?] [| [[? ?] ?] r]]]]];
+    cbv [map varea2 vscale vadd cross vzero vx vy vz fst snd ROps mul add sub zero];
+    apply triple_eq; ring.
+Qed.
+
+Lemma outward2_scale : forall k (cell face : list RV3),
+  outward2 ROps (map (vscale ROps k) cell) (map (vscale ROps k) face)
+  = k * k * k * outward2 ROps cell face.
+Proof.
+  intros k cell face. unfold outward2.
+  rewrite !vsum_scale, varea2_scale, !map_length.
+  generalize (of_nat ROps (length cell)) as a, (of_nat ROps (length face)) as b.
+  destruct (vsum ROps face) as [[f1 f2] f3]. destruct (vsum ROps cell) as [[c1 c2] c3].
+  destruct (varea2 ROps face) as [[w1 w2] w3]. intros a b.
+  cbv [dot vsub vscale vx vy vz fst snd ROps mul add sub]. ring.
+Qed.
+
